@@ -1,4 +1,446 @@
-From Verif Require Import Lib.Base Lib.RegexM Model.C13_Accounts Proofs.C13.
+(* C13 — only configured accounts validate, and only while their validator is active.
+   Property theorems only; lemmas in Proofs/C13.v (state filters), Proofs/C13_Store.v (stores and
+   refresh histories), Proofs/C13_Match.v (specifier patterns), Lib/RegexM.v (the matcher); the
+   model in Model/C13_Accounts.v.
+
+   Reading guide.  [validator_to_state v e far] is go-eth2-client's ValidatorToState (balance nil)
+   transcribed; [is_validating] / [is_sync_eligible] are the two filters of the accessors.  A
+   [state] holds the ids of the known accounts and the validators manager's records; [refresh]
+   is Refresh of the dirk / wallet account manager ([c_mgr cfg]) on top of
+   RefreshValidatorsFromBeaconNode, driven by what the wallets offer ([offered]) and what the node
+   answers ([vout]); [query cfg s sync e idx] is {Validating,SyncCommittee}AccountsForEpoch[ByIndex]
+   as a list of (validator index, account id); [run_state parse cfg s ops] is the state after a
+   history of refreshes and queries.  [parse] is the regular-expression parse oracle (Go's
+   regexp/syntax run by the harness on each specifier part: its top-level alternatives); the
+   theorems hold for every oracle.  [lang]/[full_lang]/[search_lang] are the semantics of the
+   expressions (Lib/RegexM.v), [search] is regexp.MatchString. *)
+From Verif Require Import Lib.Base Lib.RegexM Model.C13_Accounts Proofs.C13 Proofs.C13_Store Proofs.C13_Match.
+From Verif Require Import Check.C13 Proofs.C13_Check.
+From Coq Require Import String.
+Open Scope N_scope.
+
+(* ------------------------------------------------------------------------------------------- *)
+(* The matcher of the model decides the semantics: full match and regexp.MatchString. *)
 Theorem C13_matcher_decides_full_match : forall r s, full_match r s = true <-> full_lang r s.
 Proof. exact full_match_spec. Qed.
 Print Assumptions C13_matcher_decides_full_match.
+
+Theorem C13_matcher_decides_search :
+  forall r s, search r s = true <->
+              exists pre mid post, s = pre ++ mid ++ post /\ lang r (isnil pre) (isnil post) mid.
+Proof. exact search_spec. Qed.
+Print Assumptions C13_matcher_decides_search.
+
+(* ------------------------------------------------------------------------------------------- *)
+(* State filter.  For every validator record, every epoch below FAR_FUTURE_EPOCH, under the
+   consensus invariant that a slashed validator has an exit epoch: the filter of
+   ValidatingAccountsForEpoch[ByIndex] accepts the validator's state at e  iff  its activation
+   epoch is reached, its exit epoch is not, and it is not slashed. *)
+Theorem C13_state_filter :
+  forall (v : val) (e far : N),
+    e < far -> (v_slashed v = true -> v_exit v <> far) ->
+    (is_validating (validator_to_state v e far) = true
+     <-> v_act v <= e /\ e < v_exit v /\ v_slashed v = false).
+Proof. exact state_filter. Qed.
+Print Assumptions C13_state_filter.
+
+(* Both hypotheses are needed (the proof forced them): without the invariant a slashed validator
+   that has no exit epoch is reported as validating; at an epoch >= FAR_FUTURE_EPOCH a validator
+   without exit epoch is reported although "e < exit" is false.  (The harness tags such cases
+   slashed-without-exit / epoch-far and P_b accepts either answer on them.) *)
+Theorem C13_state_filter_without_invariant_refuted :
+  exists v e far, e < far /\ v_slashed v = true /\
+                  is_validating (validator_to_state v e far) = true /\
+                  ~ (v_act v <= e /\ e < v_exit v /\ v_slashed v = false).
+Proof. exact state_filter_needs_invariant. Qed.
+Print Assumptions C13_state_filter_without_invariant_refuted.
+
+Theorem C13_state_filter_beyond_far_future_refuted :
+  exists v e far, far <= e /\ (v_slashed v = true -> v_exit v <> far) /\
+                  is_validating (validator_to_state v e far) = true /\
+                  ~ (v_act v <= e /\ e < v_exit v /\ v_slashed v = false).
+Proof. exact state_filter_needs_epoch_bound. Qed.
+Print Assumptions C13_state_filter_beyond_far_future_refuted.
+
+(* Sync-committee eligibility, all records, epochs and far-future values, no hypothesis: eligible
+   iff activated and withdrawal is not done (exit epoch set and reached, withdrawable epoch
+   reached, effective balance zero). *)
+Theorem C13_sync_eligible :
+  forall (v : val) (e far : N),
+    is_sync_eligible (validator_to_state v e far) = true
+    <-> v_act v <= e /\ ~ (v_exit v <> far /\ v_exit v <= e /\ v_wd v <= e /\ v_bal v = 0).
+Proof. exact sync_filter. Qed.
+Print Assumptions C13_sync_eligible.
+
+(* "additionally keeps exited and slashed validators until withdrawal is done": every validating
+   validator is sync eligible, and the eligible ones that are not validating are exactly the
+   activated ones that are exited or slashed and whose withdrawal is not done. *)
+Theorem C13_sync_keeps_exited_and_slashed :
+  forall (v : val) (e far : N),
+    e < far -> (v_slashed v = true -> v_exit v <> far) ->
+    (is_validating (validator_to_state v e far) = true -> is_sync_eligible (validator_to_state v e far) = true)
+    /\ (is_sync_eligible (validator_to_state v e far) = true /\ is_validating (validator_to_state v e far) = false
+        <-> v_act v <= e /\ (v_exit v <= e \/ v_slashed v = true)
+            /\ ~ (v_exit v <> far /\ v_exit v <= e /\ v_wd v <= e /\ v_bal v = 0)).
+Proof.
+  intros v e far He Hinv. split; [apply validating_is_sync_eligible | exact (sync_adds v e far He Hinv)].
+Qed.
+Print Assumptions C13_sync_keeps_exited_and_slashed.
+
+(* ------------------------------------------------------------------------------------------- *)
+(* Keyed by the correct validator index.  In every state (hence after every history), for the four
+   accessors: (i, pk) is in the answer iff pk is a known account, the validators manager holds a
+   record for pk, i is THAT record's index, i passes the index filter if one is given, and the
+   record's state at e passes the accessor's filter. *)
+Theorem C13_keyed_by_index :
+  forall (cfg : config) (s : state) (sync : bool) (e : N) (idx : option (list N)) (i pk : N),
+    In (i, pk) (query cfg s sync e idx) <->
+    In pk (st_accounts s) /\
+    exists v, find_val (st_vals s) pk = Some v /\ v_index v = i /\
+              match idx with Some l => In i l | None => True end /\
+              (if sync then is_sync_eligible else is_validating) (validator_to_state v e (c_far cfg)) = true.
+Proof. exact query_In. Qed.
+Print Assumptions C13_keyed_by_index.
+
+(* The answer is a map: after every history from the empty service, no validator index occurs
+   twice in an answer, provided account ids are distinct and no answer of the node files two
+   public keys under one index. *)
+Theorem C13_answer_is_a_map :
+  forall parse (cfg : config) (ops : list op) (sync : bool) (e : N) (idx : option (list N)),
+    NoDup (map a_id (c_universe cfg)) ->
+    (forall offered l, In (Refresh offered (VOk l)) ops ->
+       forall v1 v2, In v1 l -> In v2 l -> v_index v1 = v_index v2 -> v_pk v1 = v_pk v2) ->
+    NoDup (map fst (query cfg (run_state parse cfg init ops) sync e idx)).
+Proof. exact history_query_keys_nodup. Qed.
+Print Assumptions C13_answer_is_a_map.
+
+(* Validating accounts, after every history (any manager, any specifiers, any refresh outcomes)
+   whose node answers respect the consensus invariant, at every epoch below FAR_FUTURE_EPOCH:
+   exactly the known accounts whose validator is active and not slashed, under that validator's
+   index. *)
+Theorem C13_validating_exactly :
+  forall parse (cfg : config) (ops : list op) (e : N) (idx : option (list N)) (i pk : N),
+    e < c_far cfg ->
+    (forall offered l, In (Refresh offered (VOk l)) ops ->
+       Forall (fun v => v_slashed v = true -> v_exit v <> c_far cfg) l) ->
+    let s := run_state parse cfg init ops in
+    (In (i, pk) (query cfg s false e idx) <->
+     In pk (st_accounts s) /\
+     exists v, find_val (st_vals s) pk = Some v /\ v_index v = i /\
+               match idx with Some l => In i l | None => True end /\
+               v_act v <= e /\ e < v_exit v /\ v_slashed v = false).
+Proof. exact history_validating_exactly. Qed.
+Print Assumptions C13_validating_exactly.
+
+Theorem C13_sync_committee_exactly :
+  forall (cfg : config) (s : state) (e : N) (idx : option (list N)) (i pk : N),
+    In (i, pk) (query cfg s true e idx) <->
+    In pk (st_accounts s) /\
+    exists v, find_val (st_vals s) pk = Some v /\ v_index v = i /\
+              match idx with Some l => In i l | None => True end /\
+              v_act v <= e /\ ~ (v_exit v <> c_far cfg /\ v_exit v <= e /\ v_wd v <= e /\ v_bal v = 0).
+Proof. exact sync_exactly. Qed.
+Print Assumptions C13_sync_committee_exactly.
+
+(* The ...ByIndex accessors answer the restriction of the plain ones to the given indices. *)
+Theorem C13_by_index_restricts :
+  forall (cfg : config) (s : state) (sync : bool) (e : N) (l : list N) (i pk : N),
+    In (i, pk) (query cfg s sync e (Some l)) <-> In (i, pk) (query cfg s sync e None) /\ In i l.
+Proof. exact query_by_index_restricts. Qed.
+Print Assumptions C13_by_index_restricts.
+
+(* Only configured accounts validate: whoever is reported, by any accessor after any history from
+   the empty service, is in the admitted set of a refresh of that history -- the set C13_full_match
+   characterises -- and that set is the whole current account store. *)
+Theorem C13_reported_was_admitted :
+  forall parse (cfg : config) (ops : list op) (sync : bool) (e : N) (idx : option (list N)) (i pk : N),
+    In (i, pk) (query cfg (run_state parse cfg init ops) sync e idx) ->
+    exists offered vo, In (Refresh offered vo) ops /\ In pk (admitted parse cfg offered) /\
+                       st_accounts (run_state parse cfg init ops) = admitted parse cfg offered.
+Proof. exact reported_was_admitted. Qed.
+Print Assumptions C13_reported_was_admitted.
+
+(* The outputs the correspondence check compares ([run_from], one per operation) are those of the
+   states the theorems speak about ([run_state]). *)
+Theorem C13_outputs_follow_states :
+  forall parse (cfg : config) (ops : list op) (s : state),
+    (forall sync e idx,
+       run_from parse cfg s (ops ++ [Query sync e idx]) =
+       run_from parse cfg s ops ++ [OQuery (query cfg (run_state parse cfg s ops) sync e idx)])
+    /\ (forall offered vo,
+       run_from parse cfg s (ops ++ [Refresh offered vo]) =
+       run_from parse cfg s ops ++
+       [OProbe (sort_by (fun x => x) (st_accounts (run_state parse cfg s (ops ++ [Refresh offered vo]))))]).
+Proof.
+  intros parse cfg ops s. split; intros.
+  - apply run_from_query.
+  - apply run_from_refresh.
+Qed.
+Print Assumptions C13_outputs_follow_states.
+
+(* ------------------------------------------------------------------------------------------- *)
+(* Retention.  One refresh: when the remote signer offers nothing admissible and the node fails or
+   answers nothing for the known accounts, the dirk manager's whole state is unchanged (hence so
+   is every later answer); in both managers a failing or empty answer of the node leaves the
+   validator store unchanged. *)
+Theorem C13_retain_on_empty :
+  forall parse (cfg : config) (s : state) (offered : list N) (vo : vout),
+    (c_mgr cfg = Dirk -> admitted parse cfg offered = [] ->
+     match vo with VErr => True | VOk l => node_answer l (st_accounts s) = [] end ->
+     refresh parse cfg s offered vo = s)
+    /\ (c_mgr cfg = Dirk -> admitted parse cfg offered = [] ->
+        st_accounts (refresh parse cfg s offered vo) = st_accounts s)
+    /\ (match vo with
+        | VErr => True
+        | VOk l => node_answer l (refresh_accounts parse cfg (st_accounts s) offered) = []
+        end -> st_vals (refresh parse cfg s offered vo) = st_vals s).
+Proof.
+  intros parse cfg s offered vo. split; [|split].
+  - exact (dirk_empty_refresh_is_identity parse cfg s offered vo).
+  - exact (dirk_empty_offer_keeps_accounts parse cfg s offered vo).
+  - exact (empty_answer_keeps_validators parse cfg s offered vo).
+Qed.
+Print Assumptions C13_retain_on_empty.
+
+(* Histories (induction over refresh-outcome histories): after any history the dirk manager knows
+   the admitted set of the most recent refresh that admitted anything, and the validators manager
+   (under either account manager) holds the most recent non-empty answer obtained. *)
+Theorem C13_retain_on_empty_histories :
+  forall parse (cfg : config) (ops : list op),
+    (c_mgr cfg = Dirk ->
+     st_accounts (run_state parse cfg init ops) =
+     last_nonempty (map (fun r => admitted parse cfg (fst r)) (refreshes ops)))
+    /\ st_vals (run_state parse cfg init ops) = last_nonempty (val_outcomes parse cfg [] ops).
+Proof.
+  intros parse cfg ops. split; [exact (dirk_accounts_closed_form parse cfg ops) | exact (validators_closed_form parse cfg ops)].
+Qed.
+Print Assumptions C13_retain_on_empty_histories.
+
+(* ... so nothing known is ever wiped, whatever follows. *)
+Theorem C13_never_wiped :
+  forall parse (cfg : config) (ops : list op) (s : state),
+    (c_mgr cfg = Dirk -> st_accounts s <> [] -> st_accounts (run_state parse cfg s ops) <> [])
+    /\ (st_vals s <> [] -> st_vals (run_state parse cfg s ops) <> []).
+Proof.
+  intros parse cfg ops s. split; [exact (dirk_accounts_never_wiped parse cfg ops s) | exact (validators_never_wiped parse cfg ops s)].
+Qed.
+Print Assumptions C13_never_wiped.
+
+(* The local wallet manager (not named by the retention clause) replaces its list
+   unconditionally: it knows what the last refresh admitted. *)
+Theorem C13_wallet_manager_replaces :
+  forall parse (cfg : config) (ops : list op) (s : state),
+    c_mgr cfg = Wallet ->
+    st_accounts (run_state parse cfg s ops) =
+    last (map (fun r => admitted parse cfg (fst r)) (refreshes ops)) (st_accounts s).
+Proof. exact wallet_accounts_closed_form_from. Qed.
+Print Assumptions C13_wallet_manager_replaces.
+
+(* ------------------------------------------------------------------------------------------- *)
+(* Full match, every list of specifiers (plain, wallet-only, regular expressions, with or without
+   anchors, with or without alternation).  The only hypothesis is about the parse oracle: in a
+   part without any `|` character it finds a single alternative (true of every parser).
+
+   dirk: an account is admitted by a refresh iff it is in the universe, offered, its wallet is one
+   the manager opens, and either the short circuit fires or some specifier is about its wallet
+   and its WHOLE wallet/account name matches (wallet part)/(account part), the alternatives of
+   each part grouped. *)
+Theorem C13_full_match :
+  forall parse (cfg : config) (offered : list N) (id : N),
+    c_mgr cfg = Dirk ->
+    (forall path, In path (c_paths cfg) ->
+       forall p0 p1, dirk_parts path = Some (p0, p1) ->
+         (has_bar p0 = false -> forall l, parse p0 = Some l -> exists r, l = [r]) /\
+         (has_bar p1 = false -> forall l, parse p1 = Some l -> exists r, l = [r])) ->
+    (In id (admitted parse cfg offered) <->
+     exists a, In a (c_universe cfg) /\ a_id a = id /\ In id offered /\
+               In (a_wallet a) (wallet_names cfg) /\
+               (dirk_short_circuit parse (c_paths cfg) a = true \/
+                exists path, In path (c_paths cfg) /\
+                  exists p0 p1 ws accs,
+                    dirk_parts path = Some (p0, p1) /\ p0 = a_wallet a /\
+                    parse p0 = Some ws /\ parse p1 = Some accs /\
+                    full_lang (Seq (alts ws) (Seq slash (alts accs))) (codes (full_name a)))).
+Proof. exact dirk_admitted_full_match. Qed.
+Print Assumptions C13_full_match.
+
+(* The short circuit (wallet names without `|`) fires only when exactly one compiled specifier is
+   about the wallet and its account part is .* ; when the wallet's name read as an expression
+   matches itself and .* has its usual meaning, it then admits only accounts whose whole
+   (newline-free) name matches that specifier: an optimisation, not an extra door. *)
+Theorem C13_short_circuit_sound :
+  forall parse (paths : list string) (a : account),
+    has_bar (a_wallet a) = false ->
+    dirk_short_circuit parse paths a = true ->
+    (exists path p1, In path paths /\ dirk_parts path = Some (a_wallet a, p1) /\ p1 = ".*"%string /\
+       exists p, dirk_pattern parse path = Some p /\
+                 filter (fun p => String.eqb (p_key p) (a_wallet a)) (dirk_patterns parse paths) = [p])
+    /\ (parse (a_wallet a) = Some [lit (a_wallet a)] ->
+        parse ".*"%string = Some [Star (Cls [(0, 9); (11, 1114111)])] ->
+        Forall (fun c => in_cls c [(0, 9); (11, 1114111)] = true) (codes (a_name a)) ->
+        exists path, In path paths /\
+          exists p0 p1 ws accs,
+            dirk_parts path = Some (p0, p1) /\ p0 = a_wallet a /\
+            parse p0 = Some ws /\ parse p1 = Some accs /\
+            full_lang (Seq (alts ws) (Seq slash (alts accs))) (codes (full_name a))).
+Proof.
+  intros parse paths a Hb H. split.
+  - exact (dirk_short_circuit_spec parse paths a Hb H).
+  - intros Hw Hd Hn. exact (dirk_short_circuit_sound parse paths a Hb Hw Hd Hn H).
+Qed.
+Print Assumptions C13_short_circuit_sound.
+
+(* wallet manager: the wallet part is used as written, every pattern is tried on every opened
+   wallet, and the account must unlock. *)
+Theorem C13_full_match_wallet :
+  forall parse (cfg : config) (offered : list N) (id : N),
+    c_mgr cfg = Wallet ->
+    (forall path, In path (c_paths cfg) ->
+       forall p0 p1, wallet_parts path = Some (p0, p1) ->
+         (has_bar p0 = false -> forall l, parse p0 = Some l -> exists r, l = [r]) /\
+         (has_bar p1 = false -> forall l, parse p1 = Some l -> exists r, l = [r])) ->
+    (In id (admitted parse cfg offered) <->
+     exists a, In a (c_universe cfg) /\ a_id a = id /\ In id offered /\
+               In (a_wallet a) (wallet_names cfg) /\ a_locked a = false /\
+               exists path, In path (c_paths cfg) /\
+                 exists p0 p1 ws accs,
+                   wallet_parts path = Some (p0, p1) /\
+                   parse p0 = Some ws /\ parse p1 = Some accs /\
+                   full_lang (Seq (alts ws) (Seq slash (alts accs))) (codes (full_name a))).
+Proof. exact wallet_admitted_full_match. Qed.
+Print Assumptions C13_full_match_wallet.
+
+(* What "the whole name matches wallet/account" means: the name splits at a slash into a text that
+   one alternative of the wallet part matches from the beginning of the name and a text that one
+   alternative of the account part matches up to the end of the name -- nothing before, nothing
+   after, nothing in between. *)
+Theorem C13_full_match_meaning :
+  forall (ws accs : list re) (s : list N),
+    full_lang (Seq (alts ws) (Seq slash (alts accs))) s <->
+    exists w n, s = w ++ 47 :: n /\
+                (exists rw, In rw ws /\ lang rw true false w) /\
+                (exists ra, In ra accs /\ lang ra false true n).
+Proof.
+  intros ws accs s. rewrite full_parts_split. split; intros (w & n & Hs & Hw & Hn); exists w, n;
+    (split; [exact Hs|]); split; apply lang_alts; assumption.
+Qed.
+Print Assumptions C13_full_match_meaning.
+
+(* The anchored pattern of one specifier whose parts are grouped, found anywhere in a name by
+   regexp.MatchString, is the full match of its two parts. *)
+Theorem C13_anchored_pattern_is_full_match :
+  forall (rw ra : re) (s : list N),
+    search (textual_concat [[Bol]; [rw]; [slash]; [ra]; [Eol]]) s = true
+    <-> full_lang (Seq rw (Seq slash ra)) s.
+Proof. intros rw ra s. rewrite search_spec. exact (anchored_parts_full rw ra s). Qed.
+Print Assumptions C13_anchored_pattern_is_full_match.
+
+(* Why the grouping matters (the statement the un-repaired managers REFUTED; fixed in the
+   repository, witnesses corpus/C13/alternation-escapes-anchor-*.json): the text ^W/a|b$ spliced
+   without grouping reads (^W/a)|(b$) and is found in W/ax and in zzxb, which do not match
+   W/(a|b).  With the grouping both managers admit exactly W/a and W/b. *)
+Theorem C13_full_match_ungrouped_refuted :
+  exists (ws accs : list re) (s1 s2 : list N),
+    ws = [lit "W"] /\ accs = [Chr 97; Chr 98] /\ s1 = codes "W/ax" /\ s2 = codes "zzxb" /\
+    search (textual_concat [[Bol]; ws; [slash]; accs; [Eol]]) s1 = true /\
+    search (textual_concat [[Bol]; ws; [slash]; accs; [Eol]]) s2 = true /\
+    ~ full_lang (Seq (alts ws) (Seq slash (alts accs))) s1 /\
+    ~ full_lang (Seq (alts ws) (Seq slash (alts accs))) s2.
+Proof.
+  exists [lit "W"], [Chr 97; Chr 98], (codes "W/ax"), (codes "zzxb").
+  destruct ungrouped_alternation_escapes as (H1 & H2 & H3 & H4).
+  repeat (split; [reflexivity || assumption|]). assumption.
+Qed.
+Print Assumptions C13_full_match_ungrouped_refuted.
+
+(* ------------------------------------------------------------------------------------------- *)
+(* What the check's predicate establishes about an OBSERVED history (the model is not involved):
+   P_b true means -- unless the wallet manager's constructor failed on a failing first validator
+   refresh -- that from the empty service every observed refresh result and every observed answer
+   satisfies the property, step by step ([holds], Proofs/C13_Check.v):
+   a refresh result either contains only offered accounts covered by a specifier (whole name
+   matches (wallet part)/(account part), or the wallet is named as a whole) and every offered,
+   unlockable account a plain specifier names, or is the old list (nothing that must be used
+   having been offered), and the dirk manager's list is never wiped; an answer contains only
+   (index, account) pairs of known accounts' validators under their own index, within the index
+   filter, active-and-unslashed resp. sync eligible at the epoch (or outside the hypotheses of
+   C13_state_filter), and contains all of those that are within the hypotheses; the validator
+   store the answers are judged against is never replaced by an error or an empty answer. *)
+Theorem C13_P_b_sound :
+  forall c : case,
+    P_b c = true ->
+    (exists offered ops', c_mgr (c_cfg c) = Wallet /\ c_ops c = Refresh offered VErr :: ops' /\
+                          exists rest, c_outs c = OCtorErr :: rest)
+    \/ holds (lookup_parse (c_parse c)) (c_cfg c) [] [] (c_ops c) (c_outs c).
+Proof. exact P_b_sound. Qed.
+Print Assumptions C13_P_b_sound.
+
+(* ... and what `agree` establishes: on a case where it is true the observed outputs are the
+   model's, so the theorems about [run] / [run_state] speak about what the implementation did. *)
+Theorem C13_agree_sound :
+  forall c : case,
+    agree c = true -> c_outs c = run (lookup_parse (c_parse c)) (c_cfg c) (c_ops c).
+Proof. exact agree_sound. Qed.
+Print Assumptions C13_agree_sound.
+
+(* ------------------------------------------------------------------------------------------- *)
+(* Non-vacuity. *)
+Open Scope string_scope.
+Definition ex_oracle (t : string) : option (list re) :=
+  if String.eqb t "W" then Some [lit "W"]
+  else if String.eqb t "acc[0-9]" then Some [Seq (lit "acc") (Cls [(48, 57)])]
+  else if String.eqb t ".*" then Some [Star (Cls [(0, 9); (11, 1114111)])]
+  else None.
+Definition ex_universe : list account :=
+  [ {| a_id := 1; a_wallet := "W"; a_name := "acc1"; a_locked := false |};
+    {| a_id := 2; a_wallet := "W"; a_name := "acc2"; a_locked := false |};
+    {| a_id := 3; a_wallet := "W"; a_name := "xacc1"; a_locked := false |};
+    {| a_id := 4; a_wallet := "W"; a_name := "acc12"; a_locked := false |} ].
+Definition ex_cfg (m : mgr) : config :=
+  {| c_mgr := m; c_paths := ["W/acc[0-9]"]; c_universe := ex_universe; c_far := 1000 |}.
+Close Scope string_scope.
+Definition ex_val (pk idx act exit : N) (sl : bool) : val :=
+  {| v_pk := pk; v_index := idx; v_elig := 0; v_act := act; v_exit := exit; v_wd := exit + 4;
+     v_slashed := sl; v_bal := 32 |}.
+Definition ex_vals : list val := [ex_val 1 70 5 1000 false; ex_val 2 71 5 20 true; ex_val 3 72 5 1000 false].
+
+(* the hypotheses of C13_full_match hold of the example and the theorem's two sides are
+   inhabited: of four offered accounts exactly the two whose whole name matches are admitted
+   (xacc1 and acc12 only contain a match) *)
+Example C13_example_admitted :
+  (forall path, In path (c_paths (ex_cfg Dirk)) -> dirk_sound ex_oracle path)
+  /\ admitted ex_oracle (ex_cfg Dirk) [1; 2; 3; 4] = [1; 2]
+  /\ admitted ex_oracle (ex_cfg Wallet) [1; 2; 3; 4] = [1; 2].
+Proof.
+  split; [|split; vm_compute; reflexivity].
+  intros path [<- | []] p0 p1 H. vm_compute in H. injection H as <- <-.
+  split; intros _ l Hl; vm_compute in Hl; injection Hl as <-; eexists; reflexivity.
+Qed.
+
+(* with an alternation: exactly the two named accounts, in both managers *)
+Example C13_example_alternation :
+  map (fun n => dirk_admits (dirk_patterns oracle_ab ["W/a|b"%string]) (acct_W n 1))
+      ["a"; "b"; "ax"; "xb"; "c"]%string = [true; true; false; false; false] /\
+  map (fun n => wallet_admits (wallet_patterns oracle_ab ["W/a|b"%string]) (acct_W n 1))
+      ["a"; "b"; "ax"; "xb"; "c"]%string = [true; true; false; false; false].
+Proof. exact grouped_alternation_example. Qed.
+
+(* a history: everything known; then the signer offers nothing and the node fails; then the node
+   answers nothing -- the answers to the same query stay what they were; account 2 (slashed,
+   exiting) is kept by the sync-committee accessor only *)
+Example C13_example_history :
+  let ops := [Refresh [1; 2; 3; 4] (VOk ex_vals); Query false 10 None; Query true 10 None;
+              Refresh [] VErr; Query false 10 None;
+              Refresh [1; 2; 3; 4] (VOk []); Query true 10 None; Query false 4 None; Query true 10 (Some [71; 72])] in
+  run ex_oracle (ex_cfg Dirk) ops =
+  [OProbe [1; 2]; OQuery [(70, 1)]; OQuery [(70, 1); (71, 2)]; OProbe [1; 2]; OQuery [(70, 1)];
+   OProbe [1; 2]; OQuery [(70, 1); (71, 2)]; OQuery []; OQuery [(71, 2)]].
+Proof. vm_compute. reflexivity. Qed.
+
+Example C13_example_states :
+  let far := 1000 in
+  map (fun v => (is_validating (validator_to_state v 10 far), is_sync_eligible (validator_to_state v 10 far)))
+      [ex_val 1 70 5 far false; ex_val 1 70 11 far false; ex_val 2 71 5 20 true; ex_val 2 71 5 8 false;
+       {| v_pk := 4; v_index := 73; v_elig := 0; v_act := 1; v_exit := 3; v_wd := 5; v_slashed := false; v_bal := 0 |}]
+  = [(true, true); (false, false); (false, true); (false, true); (false, false)].
+Proof. vm_compute. reflexivity. Qed.
